@@ -368,6 +368,10 @@ def sabotage(nl, kind, rng):
         rng.choice(kids).reference = None
     elif kind == "no_top":
         nl.top_instance = None
+    elif kind == "unnamed_top":
+        if nl.top_instance is None or ".NAME" not in nl.top_instance:
+            return False
+        del nl.top_instance[".NAME"]
     else:
         pool = {"unnamed_port": [p for d in defs for p in d.ports], "unnamed_instance": [k for d in defs for k in d.children],
                 "unnamed_cable": [c for d in defs for c in d.cables], "unnamed_definition": defs,
@@ -379,16 +383,29 @@ def sabotage(nl, kind, rng):
     return True
 
 
-SABOTAGE = ["child_ref_none", "no_top", "unnamed_port", "unnamed_instance", "unnamed_cable", "unnamed_definition", "unnamed_library"]
+SABOTAGE = ["child_ref_none", "no_top", "unnamed_top", "unnamed_port", "unnamed_instance", "unnamed_cable", "unnamed_definition", "unnamed_library"]
 
 
 def do_compose(nl, path, inp):
+    """every public entry point: sdn.compose, Netlist.compose, the composer classes"""
     import spydrnet as sdn
-    if inp.get("api") == "ComposeEdif.run":
-        from spydrnet.composers.edif.composer import ComposeEdif
-        ComposeEdif().run(nl, path)
+    api = inp.get("api", "sdn.compose")
+    opt = inp.get("options", {})
+    fmt = inp["fmt"]
+    if api in ("class", "ComposeEdif.run"):
+        if fmt == "edif":
+            from spydrnet.composers.edif.composer import ComposeEdif
+            ComposeEdif().run(nl, path)
+        elif fmt == "verilog":
+            from spydrnet.composers.verilog.composer import Composer
+            Composer(opt.get("definition_list", []), opt.get("write_blackbox", True), opt.get("defparam", False)).run(nl, file_out=path)
+        else:
+            from spydrnet.composers.eblif.eblif_composer import EBLIFComposer
+            EBLIFComposer(opt.get("write_blackbox", True), opt.get("write_eblif_cname", True)).run(nl, path)
+    elif api == "Netlist.compose":
+        nl.compose(path, **opt)
     else:
-        sdn.compose(nl, path, **inp.get("options", {}))
+        sdn.compose(nl, path, **opt)
 
 
 def case_body(inp, tmpdir):
@@ -552,6 +569,7 @@ def judge(sr, drv, inp, res):
     sr.case(stable_hash([inp["source"], fmt, inp.get("options"), inp.get("api"), inp.get("name_none"), inp.get("qseed")]),
             nontrivial=sizes[1] >= 2 and sizes[2] >= 1)
     sr.dist("%s.libs%d.defs%d" % (fmt, min(sizes[0], 3), min(sizes[1] // 3 * 3, 9)))
+    sr.dist("%s.api.%s%s" % (fmt, inp.get("api", "sdn.compose"), ".unnamed_netlist" if inp.get("name_none") else ""))
     opt = inp.get("options", {})
     for k, v in sorted(opt.items()):
         sr.dist("%s.opt.%s=%s" % (fmt, k, "list" if isinstance(v, list) and v else v))
@@ -692,9 +710,11 @@ def make_cases(rng, n, tier):
             f2 = rng.choice(["edif", "verilog", "eblif"])
             src = {"type": "bundled", "fmt": f2, "stem": rng.choice(T.BUNDLED[f2])}
         inp = {"kind": "c16", "source": src, "fmt": fmt, "options": options_for(fmt, rng, ["leaf_a", "mod_a", "mod_b", "leaf_b"])}
-        if fmt == "edif" and rng.random() < 0.2:
-            inp["api"] = "ComposeEdif.run"
-            inp["name_none"] = rng.random() < 0.6
+        inp["api"] = rng.choice(["sdn.compose", "sdn.compose", "Netlist.compose", "class"])
+        # an ABSENT netlist name: documented defaulting for the EDIF writer class only; the dispatcher
+        # refuses it for EDIF, the Verilog writer refuses it, the EBLIF writer does not look at it
+        if rng.random() < 0.2:
+            inp["name_none"] = True
         if rng.random() < 0.12:
             inp["sabotage"] = rng.choice(SABOTAGE)
         inp["qseed"] = rng.randrange(1000)
